@@ -14,7 +14,9 @@ PROPS = {
         # c10_writebehind: read-your-writes rests on "an entry is un-pinned / a staging log is trimmed only AFTER the batch that wrote
         # it is committed" -- that order is the commit kernel's invariant (the open physical batch holds exactly the logical
         # batches whose notification is still pending), so the kernel is re-verified here
-        "verus": ["c09_staging", "c10_writebehind"],
+        # c16_policy: "... no matter what has been evicted" rests on the cache never evicting an entry whose owner reports it pinned
+        # (pin count > 0 = an unflushed write): the policy, its dispatcher and the atomic remove closure are re-verified here
+        "verus": ["c09_staging", "c10_writebehind", "c16_policy"],
         "kani": [],
         "native": [
             {"name": "cached_maps_read_your_writes", "bin": "replay_c09", "crate": "replay", "tiers": ("quick", "thorough"),
